@@ -22,20 +22,28 @@ type prop struct{}
 func init() { fw.Register(prop{}) }
 
 func (prop) ID() string { return "C06" }
-func (prop) Cases(tier string) int {
+// plain cases, followed by depth-race cases (sched.DepthRace graphs compiled with a depth limit)
+func plainCases(tier string) int {
 	if tier == "thorough" {
 		return 6000
 	}
 	return 260
 }
+
+func (prop) Cases(tier string) int {
+	if tier == "thorough" {
+		return plainCases(tier) + 600
+	}
+	return plainCases(tier) + 40
+}
 func (prop) Info() fw.Info {
 	return fw.Info{
 		Level: "fault_enumeration",
-		Rule: "case i = import graph (all digraphs on 1-2 files first, then random graphs on 3..6 files, some with an OpenAPI-2 .yaml leaf imported `as App` and a compiled-model .pb.json leaf) x fault sets: every single reachable file and PRNG-chosen pairs/triples x fault kinds {read error, content truncated inside a keyword, syntax-error line, foreign content matching no known format, broken JSON in .pb.json} x delivery points chosen through the schedule controller {faulted read released as early as possible, as late as possible, PRNG positions}. Oracle per execution: Parse returns (nil module, non-nil error); the error text names a faulted file that the reader log shows was requested; exit-code class 1 when only reads fail and 2 when only content is bad; no panic, no hang, every collectSpecs invocation joined; the same graph without faults compiles; race detector silent. Non-trivial: >= 2 files reachable and the faulted file is not the root, or >= 2 faults; distinct by graph+fault plan.",
+		Rule: "case i = import graph (all digraphs on 1-2 files first, then random graphs on 3..6 files, some with an OpenAPI-2 .yaml leaf imported `as App` and a compiled-model .pb.json leaf; the last 40 (quick) / 600 (thorough) cases are depth-race graphs — a file reachable through a short and a long path with a tail of imports — compiled with a depth limit that cuts the tail along the long path only, faults placed on files nearer than the limit) x fault sets: every single reachable file and PRNG-chosen pairs/triples x fault kinds {read error, content truncated inside a keyword, syntax-error line, foreign content matching no known format, broken JSON in .pb.json} x delivery points chosen through the schedule controller {faulted read released as early as possible, as late as possible, PRNG positions}. Oracle per execution: Parse returns (nil module, non-nil error); the error text names a faulted file that the reader log shows was requested; exit-code class 1 when only reads fail and 2 when only content is bad; no panic, no hang, every collectSpecs invocation joined; the same graph without faults compiles; race detector silent. Non-trivial: >= 2 files reachable and the faulted file is not the root, or >= 2 faults; distinct by graph+fault plan.",
 		Assumptions: []string{"errgroup.Wait returns the first error only: naming any one faulted-and-requested file satisfies the property", "remote imports not generated"},
 		Race:        true,
 		CaseTimeout: 600,
-		CountFloors: map[string]int{"fault_executions": 1000, "fault_points": 300},
+		CountFloors: map[string]int{"fault_executions": 1000, "fault_points": 300, "fault_executions_with_depth_limit": 100},
 		SetFloors:   map[string]int{"fault_kinds": 5, "delivery": 3},
 	}
 }
@@ -88,7 +96,13 @@ func (prop) Run(ctx *fw.Ctx, i int) fw.Result {
 	r := ctx.Rng()
 	var res fw.Result
 	var g *sched.Graph
+	limit := 0
 	switch {
+	case i >= plainCases(ctx.Tier):
+		var ls []int
+		g, ls = sched.DepthRace(r)
+		limit = ls[r.Intn(len(ls))]
+		res.Add("graph_families", "depth-race-with-limit")
 	case i < 2:
 		g = sched.FromBits(1, uint64(i), r)
 	case i < 18:
@@ -108,11 +122,19 @@ func (prop) Run(ctx *fw.Ctx, i int) fw.Result {
 	}
 	files := g.Render()
 	dist := g.Dist()
+	// the closure: reachable files, with a depth limit those nearer than the limit
 	var reach []int
 	for k, d := range dist {
-		if d >= 0 {
+		if d >= 0 && (limit == 0 || d < limit) {
 			reach = append(reach, k)
 		}
+	}
+	newParser := func() *parse.Parser {
+		p := parse.NewParser()
+		if limit > 0 {
+			p.Set(parse.Settings{MaxImportDepth: limit})
+		}
+		return p
 	}
 	var hp []string
 	names := make([]string, 0, len(files))
@@ -141,7 +163,7 @@ func (prop) Run(ctx *fw.Ctx, i int) fw.Result {
 	{
 		c := sched.NewController(files, nil)
 		c.Free = true
-		out := c.Run(parse.NewParser(), "root.sysl", func(int, []string) int { return 0 }, 60*time.Second)
+		out := c.Run(newParser(), "root.sysl", func(int, []string) int { return 0 }, 60*time.Second)
 		if out.Err != nil || out.Module == nil || out.Panic != "" {
 			res.Verdict = "inconclusive"
 			res.Note = fmt.Sprintf("fault-free closure does not compile: %v %s (graph %s)", out.Err, out.Panic, g.String())
@@ -229,11 +251,14 @@ func (prop) Run(ctx *fw.Ctx, i int) fw.Result {
 				return rr.Intn(len(opts))
 			}
 			c := sched.NewController(files, faults)
-			out := c.Run(parse.NewParser(), "root.sysl", chooser, 60*time.Second)
+			out := c.Run(newParser(), "root.sysl", chooser, 60*time.Second)
+			if limit > 0 {
+				res.Count("fault_executions_with_depth_limit", 1)
+			}
 			res.Count("fault_executions", 1)
 			res.Count("hook_events", len(c.Events))
 			res.Add("delivery", del)
-			what := fmt.Sprintf("faults=%v delivery=%s releases=%s", desc, del, c.Signature())
+			what := fmt.Sprintf("faults=%v delivery=%s limit=%d releases=%s", desc, del, limit, c.Signature())
 			kinds := append([]string{}, desc...)
 			for k := range kinds {
 				kinds[k] = kinds[k][strings.LastIndex(kinds[k], ":")+1:]
